@@ -289,7 +289,11 @@ func c07(x *mon.Ctx) {
 		x.Broken("C07 twin rejected: " + out.Err)
 		return
 	}
+	enableShadowForTwins(x)
 	jobs := c07Jobs(x, base)
+	for _, j := range jobs {
+		j.TwinRef = tw
+	}
 	x.Each(len(jobs), func(i int) {
 		c := jobs[i]
 		out, v := check(x, i, c)
